@@ -153,7 +153,16 @@ def history_templates():
              {"Resources": {"a": {"Properties": {}}}}, {"Resources": {}}]
     docs2 = [{"a": 1, "b": 1}, {"a": 1, "b": 2}, {"b": 1}, {}]
     docs3 = [{"items": [{"k": 1}, {"k": 3}]}, {"items": [{"k": 5}, {"j": 1}]}, {"items": []}, {"items": [{"k": 3}, {"k": 9}]}]
-    return [(t1, docs1), (t2, docs2), (t3, docs3)]
+    # one rule name defined twice under mutually exclusive guards (at most one definition applies), referenced by name, with a
+    # definition that applies and fails / passes first or last: the reference and the file status must not depend on the order
+    t4 = {'lets': [],
+          'rules': [{'name': 'sized', 'when': [[C(Q('kind'), '==', s('a'))]], 'params': None, 'block': {'lets': [], 'cnf': [[C(Q('size'), '>=', i(10))]]}},
+                    {'name': 'sized', 'when': [[C(Q('kind'), '==', s('b'))]], 'params': None, 'block': {'lets': [], 'cnf': [[C(Q('size'), '>=', i(100))]]}},
+                    {'name': 'user', 'when': None, 'params': None, 'block': {'lets': [], 'cnf': [[('named', False, 'sized', None)]]}},
+                    {'name': 'typed', 'when': None, 'params': None, 'block': {'lets': [], 'cnf': [[C(Q('kind'), 'exists')], [('named', True, 'sized', None), C(Q('size'), 'exists')]]}}],
+          'default': []}
+    docs4 = [{"kind": "a", "size": 50}, {"kind": "b", "size": 50}, {"kind": "c", "size": 50}, {"kind": "a", "size": 5}, {"kind": "b", "size": 500}, {"size": 1}]
+    return [(t1, docs1), (t2, docs2), (t3, docs3), (t4, docs4)]
 
 
 def run_diff(ctx, nprog, budget):
